@@ -317,6 +317,8 @@ func Apply(ctx context.Context, rc *regclient.RegClient, rSrc ref.Ref, opts ...O
 				if err != nil {
 					return nil, err
 				}
+				// the close functions of the layer steps record digests and are not idempotent, do not run them again from the defer
+				rdr = nil
 				if dl.newDesc.Digest == "" {
 					dl.newDesc.Digest = dNew.Digest
 				} else if dl.newDesc.Digest != dNew.Digest {
